@@ -102,6 +102,12 @@ def help (bin : String) (info : PkgInfo) (words : List String) : String × Int :
     | some f => (helpText bin info f, 0)
     | none => ("", 2)
 
+/-- `fs.Usage` of the generated main (`-h` without a target, `-help`): the binary's base name and a fixed text -/
+def usageText (bin : String) : String :=
+  bin ++ " [options] [target]\n\nCommands:\n  -l    list targets in this binary\n  -h    show this help\n\nOptions:\n" ++
+  "  -h    show description of a target\n  -t <string>\n        timeout in duration parsable format (e.g. 5m30s)\n" ++
+  "  -v    show verbose output when running targets\n "
+
 /-- without `MAGEFILE_ENABLE_COLOR` (or on a terminal without colour) the environment does not matter -/
 theorem listTextEnv_plain (env : String → Option String) (info : PkgInfo) (h : colorOn env = false) :
     listTextEnv env info = listText info := by
